@@ -5,6 +5,7 @@
 package rtp
 
 import (
+	"github.com/cnotch/ipchub/utils/simhook"
 	"fmt"
 	"runtime/debug"
 	"time"
@@ -98,8 +99,11 @@ func (demuxer *Demuxer) process() {
 		demuxer.recvQueue.Reset()
 	}()
 
+	simhook.Y("rtpdemux.start")
 	for !demuxer.closed {
+		simhook.Y("rtpdemux.beforePop")
 		p := demuxer.recvQueue.Pop()
+		simhook.Y("rtpdemux.afterPop")
 		if p == nil {
 			if !demuxer.closed {
 				demuxer.logger.Warn("FrameConverter:receive nil packet")
